@@ -1,94 +1,241 @@
 """C05: ranges and boxes as closed axis-aligned sets."""
+import os
+import z3
 from unit import Unit
+import vecgen
+from vecgen import CXXT, ct, is_f, EQ, BOP, AND
 
-def CW(fmt, comps="xyz", sep=" && "):
-    return "(" + sep.join("(" + fmt.replace("$", c) + ")" for c in comps) + ")"
+# (tag, element type, shape) ; shape None = range_t<scalar>
+BOXES_QUICK = [("box3i", "i32", "3"), ("box3f", "f32", "3"), ("box2i", "i32", "2"), ("box1f", "f32", None), ("box4f", "f32", "4"), ("box3fa", "f32", "3a")]
+BOXES_MORE = [("box1i", "i32", None), ("box2f", "f32", "2"), ("box4i", "i32", "4")]
+
+
+def btype(t, s):
+    return "range_t<%s>" % (CXXT[t] if s is None else vecgen.vt(t, s))
+
+
+def ptype(t, s):
+    return CXXT[t] if s is None else vecgen.vt(t, s)
+
+
+def comps(s):
+    return [""] if s is None else list(vecgen.comps(s))
+
+
+def F(obj, bound, c):
+    """C path of component c of obj->bound"""
+    return "%s->%s%s" % (obj, bound, ("." + c) if c else "")
+
+
+def PT(p, c):
+    return ("%s->%s" % (p, c)) if c else ("(*%s)" % p)
+
+
+def RC(c):
+    return ("RET.%s" % c) if c else "RET"
+
+
+def gen_box(G, tag, t, s):
+    B, P = btype(t, s), ptype(t, s)
+    cs = comps(s)
+    fl = is_f(t)
+    nonan_b = lambda b: [("%s == %s && %s == %s" % (F(b, "lower", c), F(b, "lower", c), F(b, "upper", c), F(b, "upper", c))) for c in cs] if fl else []
+    nonan_p = lambda p: [("%s == %s" % (PT(p, c), PT(p, c))) for c in cs] if fl else []
+    IN = lambda b, p: AND(["%s <= %s && %s <= %s" % (F(b, "lower", c), PT(p, c), PT(p, c), F(b, "upper", c)) for c in cs])
+    NE = lambda b: AND(["%s <= %s" % (F(b, "lower", c), F(b, "upper", c)) for c in cs])
+    mn = lambda a, b: "(%s < %s ? %s : %s)" % (b, a, b, a)   # std::min(a,b)
+    mx = lambda a, b: "(%s < %s ? %s : %s)" % (a, b, b, a)   # std::max(a,b)
+    kw_p = dict(single=["t"]) if s is None else {}
+    G.use(tag + "_contains", "bool", "const %s &b, const %s &t" % (B, P), "b.contains(t)", requires=nonan_b("$0") + nonan_p("$1"),
+          ensures={"contains_iff_componentwise_closed": "RET == " + IN("$0", "$1")}, **kw_p)
+    G.use(tag + "_intersectionOf", B, "const %s &a, const %s &b" % (B, B), "intersectionOf(a, b)", requires=nonan_b("$0") + nonan_b("$1"),
+          ensures={"lower_is_max": AND([EQ(t, "RET.lower" + ("." + c if c else ""), mx(F("$0", "lower", c), F("$1", "lower", c))) for c in cs]),
+                   "upper_is_min": AND([EQ(t, "RET.upper" + ("." + c if c else ""), mn(F("$0", "upper", c), F("$1", "upper", c))) for c in cs])}) if s is not None else None
+    G.use(tag + "_extend", "void", "%s &b, const %s &t" % (B, P), "b.extend(t)", requires=nonan_b("$0") + nonan_p("$1"), assigns=["*$0"],
+          ensures={"lower_is_min": AND([EQ(t, F("$0", "lower", c), mn("OLD(%s)" % F("$0", "lower", c), "OLD(%s)" % PT("$1", c))) for c in cs]),
+                   "upper_is_max": AND([EQ(t, F("$0", "upper", c), mx("OLD(%s)" % F("$0", "upper", c), "OLD(%s)" % PT("$1", c))) for c in cs])}, **kw_p)
+    G.use(tag + "_extend_box", "void", "%s &b, const %s &t" % (B, B), "b.extend(t)", requires=nonan_b("$0") + nonan_b("$1"), assigns=["*$0"],
+          ensures={"lower_is_min": AND([EQ(t, F("$0", "lower", c), mn("OLD(%s)" % F("$0", "lower", c), "OLD(%s)" % F("$1", "lower", c))) for c in cs]),
+                   "upper_is_max": AND([EQ(t, F("$0", "upper", c), mx("OLD(%s)" % F("$0", "upper", c), "OLD(%s)" % F("$1", "upper", c))) for c in cs])})
+    POS = {"i32": "2147483647", "f32": "__builtin_inff()"}[t]
+    NEG = {"i32": "(-2147483647-1)", "f32": "(-__builtin_inff())"}[t]
+    G.use(tag + "_default", B, "", "%s()" % B, assigns=["*$0"], noalias=True,
+          ensures={"default_is_empty_identity": AND(["%s == %s && %s == %s" % (F("$0", "lower", c), POS, F("$0", "upper", c), NEG) for c in cs])})
+    G.use(tag + "_empty", "bool", "const %s &b" % B, "b.empty()", requires=nonan_b("$0"),
+          ensures={"empty_iff_some_axis_inverted": "RET == (" + " || ".join("%s < %s" % (F("$0", "upper", c), F("$0", "lower", c)) for c in cs) + ")"})
+    G.use(tag + "_clamp", P, "const %s &b, const %s &t" % (B, P), "b.clamp(t)", requires=nonan_b("$0") + nonan_p("$1") + [NE("$0")],
+          ensures={"clamp_componentwise_nearest": AND([("%s == %s" % (RC(c), "(%s < %s ? %s : (%s < %s ? %s : %s))" % (PT("$1", c), F("$0", "lower", c), F("$0", "lower", c), F("$0", "upper", c), PT("$1", c), F("$0", "upper", c), PT("$1", c)))) for c in cs])}, **kw_p)
+    p = vecgen.promoted(t)
+    G.use(tag + "_size", P, "const %s &b" % B, "b.size()",
+          ensures={"size_is_upper_minus_lower": AND([EQ(t, RC(c), "(%s)%s" % (ct(t), BOP(p, "-", F("$0", "upper", c), F("$0", "lower", c)))) for c in cs])})
+    G.use(tag + "_eq", "bool", "const %s &a, const %s &b" % (B, B), "a == b",
+          ensures={"eq_iff_bounds_equal": "RET == " + AND(["%s == %s && %s == %s" % (F("$0", "lower", c), F("$1", "lower", c), F("$0", "upper", c), F("$1", "upper", c)) for c in cs])})
+    G.use(tag + "_ne", "bool", "const %s &a, const %s &b" % (B, B), "a != b",
+          ensures={"ne_iff_some_bound_differs": "RET == !" + AND(["%s == %s && %s == %s" % (F("$0", "lower", c), F("$1", "lower", c), F("$0", "upper", c), F("$1", "upper", c)) for c in cs])})
+    # scale / translate (per component), both argument orders
+    for (nm, op, expr, sw) in (("scale", "*", "b * t", False), ("scale_l", "*", "t * b", True), ("translate", "+", "b + t", False), ("translate_l", "+", "t + b", True)):
+        params = ("const %s &t, const %s &b" % (P, B)) if sw else ("const %s &b, const %s &t" % (B, P))
+        bo, po = ("$1", "$0") if sw else ("$0", "$1")
+        G.use("%s_%s" % (tag, nm), B, params, expr,
+              ensures={"%s_lower" % nm: AND([EQ(t, "RET.lower" + ("." + c if c else ""), "(%s)%s" % (ct(t), BOP(p, op, F(bo, "lower", c), PT(po, c)))) for c in cs]),
+                       "%s_upper" % nm: AND([EQ(t, "RET.upper" + ("." + c if c else ""), "(%s)%s" % (ct(t), BOP(p, op, F(bo, "upper", c), PT(po, c)))) for c in cs])},
+              single=["t"] if s is None else [])
+    if s in ("2", "3", "3a"):
+        INTER_EMPTY = "(" + " || ".join("%s > %s" % (mx(F("$0", "lower", c), F("$1", "lower", c)), mn(F("$0", "upper", c), F("$1", "upper", c))) for c in cs) + ")"
+        G.use(tag + "_touchingOrOverlapping", "bool", "const %s &a, const %s &b" % (B, B), "touchingOrOverlapping(a, b)", requires=nonan_b("$0") + nonan_b("$1"), ensures={
+            "touching_iff_intersection_nonempty__nonempty_operands": "IMP(%s && %s, RET == !%s)" % (NE("$0"), NE("$1"), INTER_EMPTY),
+            "touching_iff_intersection_nonempty__empty_operand": "IMP(!%s || !%s, RET == 0)" % (NE("$0"), NE("$1"))})
+    if s is not None:
+        INTER_EMPTY = "(" + " || ".join("%s > %s" % (mx(F("$0", "lower", c), F("$1", "lower", c)), mn(F("$0", "upper", c), F("$1", "upper", c))) for c in cs) + ")"
+        G.use(tag + "_disjoint", "bool", "const %s &a, const %s &b" % (B, B), "disjoint(a, b)", requires=nonan_b("$0") + nonan_b("$1"), ensures={
+            "disjoint_iff_intersection_empty__nonempty_operands": "IMP(%s && %s, RET == %s)" % (NE("$0"), NE("$1"), INTER_EMPTY),
+            "disjoint_iff_intersection_empty__empty_operand": "IMP(!%s || !%s, RET == 1)" % (NE("$0"), NE("$1"))})
+
+
+def lemmas(U, tag, t, s):
+    tr_box, tr_pt = tag, None  # C type names are resolved at lemma time through the extractor's record names
+    cs = comps(s)
+    fl = is_f(t)
+    has_inter = s is not None
+    has_touch = s in ("2", "3", "3a")
+    def nn_b(b):
+        return "".join("  ASSUME(%s.lower%s == %s.lower%s && %s.upper%s == %s.upper%s);\n" % ((b, "." + c if c else "") * 4) for c in cs) if fl else ""
+    def nn_p(p):
+        return "".join("  ASSUME(%s%s == %s%s);\n" % ((p, "." + c if c else "") * 2) for c in cs) if fl else ""
+    BT = tag
+    PTY = ct(t) if s is None else ("vec%s%s%s" % (s[0], "i" if t == "i32" else "f", "a" if s == "3a" else ""))
+    eqp = lambda a, b: " && ".join("%s%s == %s%s" % (a, "." + c if c else "", b, "." + c if c else "") for c in cs)
+    if has_inter:
+        U.lemma(tag + "_L2_intersection_exact", [(BT, "a"), (BT, "b"), (PTY, "p")], nn_b("a") + nn_b("b") + nn_p("p") + """
+  %s i = %s_intersectionOf(&a, &b);
+  _Bool ci = %s_contains(&i, &p);
+  _Bool ca = %s_contains(&a, &p);
+  _Bool cb = %s_contains(&b, &p);
+  ASSERT(intersection_contains_exactly_common_points, ci == (ca && cb));
+""" % (BT, tag, tag, tag, tag), uses=[tag + "_intersectionOf", tag + "_contains"])
+    U.lemma(tag + "_L1_extend_smallest", [(BT, "a"), (PTY, "x"), (PTY, "p"), (BT, "c")], nn_b("a") + nn_b("c") + nn_p("x") + nn_p("p") + """
+  %(B)s old = a;
+  _Bool p_in_old = %(t)s_contains(&old, &p);
+  %(t)s_extend(&a, &x);
+  ASSERT(extend_contains_argument, %(t)s_contains(&a, &x));
+  ASSERT(extend_contains_old_points, !p_in_old || %(t)s_contains(&a, &p));
+  _Bool old_empty = %(t)s_empty(&old);
+  if (%(t)s_contains(&c, &x) && (old_empty || (%(t)s_contains(&c, &old.lower) && %(t)s_contains(&c, &old.upper)))) {
+    ASSERT(extend_is_smallest, old_empty ? 1 : (%(t)s_contains(&c, &a.lower) && %(t)s_contains(&c, &a.upper)));
+  }
+  %(B)s d; %(t)s_default(&d);
+  %(t)s_extend(&d, &x);
+  ASSERT(default_box_is_identity, %(e1)s && %(e2)s);
+""" % dict(B=BT, t=tag, e1=eqp("d.lower", "x"), e2=eqp("d.upper", "x")), uses=[tag + "_extend", tag + "_contains", tag + "_empty", tag + "_default"])
+    if has_inter:
+        body = nn_b("a") + nn_b("b") + """
+  _Bool ea = %(t)s_empty(&a), eb = %(t)s_empty(&b);
+  %(B)s i = %(t)s_intersectionOf(&a, &b);
+  _Bool ei = %(t)s_empty(&i);
+  _Bool dj = %(t)s_disjoint(&a, &b);
+""" % dict(B=BT, t=tag)
+        uses = [tag + "_empty", tag + "_intersectionOf", tag + "_disjoint"]
+        if has_touch:
+            body += "  _Bool to = %s_touchingOrOverlapping(&a, &b);\n" % tag
+            uses.append(tag + "_touchingOrOverlapping")
+        body += "  if (!ea && !eb) {\n    ASSERT(intersection_empty_iff_disjoint, ei == dj);\n"
+        if has_touch:
+            body += "    ASSERT(disjoint_iff_not_touching, dj == !to);\n"
+        body += "  } else {\n    ASSERT(intersection_with_empty_is_empty, ei);\n    ASSERT(disjoint_with_empty_operand, dj);\n"
+        if has_touch:
+            body += "    ASSERT(not_touching_with_empty_operand, !to);\n"
+        body += "  }\n"
+        U.lemma(tag + "_L3_empty_disjoint_touching", [(BT, "a"), (BT, "b")], body, uses=uses)
+    U.lemma(tag + "_L4_clamp_contained", [(BT, "a"), (PTY, "t")], nn_b("a") + nn_p("t") + """
+  if (!%(t)s_empty(&a)) {
+    %(P)s c = %(t)s_clamp(&a, &t);
+    ASSERT(clamp_result_contained, %(t)s_contains(&a, &c));
+    if (%(t)s_contains(&a, &t)) ASSERT(clamp_identity_inside, %(e)s);
+  }
+""" % dict(t=tag, P=PTY, e=eqp("c", "t")), uses=[tag + "_empty", tag + "_clamp", tag + "_contains"])
+
 
 def units():
-    U = Unit("c05_box", "units/c05_box.cpp", helpers="""
-static inline int spec_imin(int a, int b) { return a < b ? a : b; }
-static inline int spec_imax(int a, int b) { return a > b ? a : b; }
-""")
-    IN = lambda b, p: CW("%s->lower.$ <= %s->$ && %s->$ <= %s->upper.$" % (b, p, p, b))
-    U.fn("box3i_contains", ensures={
-        "contains_iff_componentwise_closed": "RET == " + IN("self", "t")})
-    U.fn("box3i_intersectionOf", ensures={
-        "lower_is_max": CW("RET.lower.$ == spec_imax(a->lower.$, b->lower.$)"),
-        "upper_is_min": CW("RET.upper.$ == spec_imin(a->upper.$, b->upper.$)")})
-    U.fn("box3i_extend", assigns=["*self"], ensures={
-        "lower_is_min": CW("self->lower.$ == spec_imin(OLD(self->lower.$), OLD(t->$))"),
-        "upper_is_max": CW("self->upper.$ == spec_imax(OLD(self->upper.$), OLD(t->$))")})
-    U.fn("box3i_extend_box", assigns=["*self"], ensures={
-        "lower_is_min": CW("self->lower.$ == spec_imin(OLD(self->lower.$), OLD(t->lower.$))"),
-        "upper_is_max": CW("self->upper.$ == spec_imax(OLD(self->upper.$), OLD(t->upper.$))")})
-    U.fn("box3i_default", assigns=["*self"], noalias=True, ensures={
-        "empty_identity": CW("self->lower.$ == 2147483647 && self->upper.$ == (-2147483647-1)")})
-    U.fn("box3i_empty", ensures={"empty_iff_some_axis_inverted": "RET == " + CW("self->upper.$ < self->lower.$", sep=" || ")})
-    U.fn("box3i_clamp", requires=[CW("self->lower.$ <= self->upper.$")], ensures={
-        "clamp_componentwise_nearest": CW("RET.$ == (t->$ < self->lower.$ ? self->lower.$ : (t->$ > self->upper.$ ? self->upper.$ : t->$))")})
-    # property statement: intersectionOf is empty exactly when disjoint() holds, which is exactly when
-    # touchingOrOverlapping() does not.  INTER_EMPTY is "max(lower) > min(upper) on some axis".
-    INTER_EMPTY = CW("spec_imax(a->lower.$, b->lower.$) > spec_imin(a->upper.$, b->upper.$)", sep=" || ")
-    NE = lambda b: CW("%s->lower.$ <= %s->upper.$" % (b, b))
-    U.fn("box3i_touchingOrOverlapping", ensures={
-        "touching_iff_intersection_nonempty__nonempty_operands": "IMP(%s && %s, RET == !%s)" % (NE("a"), NE("b"), INTER_EMPTY),
-        "touching_iff_intersection_nonempty__empty_operand": "IMP(!%s || !%s, RET == 0)" % (NE("a"), NE("b"))})
-    U.fn("box3i_disjoint", ensures={
-        "disjoint_iff_intersection_empty__nonempty_operands": "IMP(%s && %s, RET == %s)" % (NE("a"), NE("b"), INTER_EMPTY),
-        "disjoint_iff_intersection_empty__empty_operand": "IMP(!%s || !%s, RET == 1)" % (NE("a"), NE("b"))})
-    U.fn("box3i_size", requires=[CW("(long)self->upper.$ - (long)self->lower.$ <= 2147483647l && (long)self->upper.$ - (long)self->lower.$ >= -2147483648l")],
-         ensures={"size_is_upper_minus_lower": CW("RET.$ == self->upper.$ - self->lower.$")})
-    # lemmas over the contracts (symbolic boxes and point)
-    U.lemma("L2_intersection_exact", [("box3i", "a"), ("box3i", "b"), ("vec3i", "p")], """
-  box3i i = box3i_intersectionOf(&a, &b);
-  _Bool ci = box3i_contains(&i, &p);
-  _Bool ca = box3i_contains(&a, &p);
-  _Bool cb = box3i_contains(&b, &p);
-  ASSERT(intersection_contains_exactly_common_points, ci == (ca && cb));
-""", uses=["box3i_intersectionOf", "box3i_contains"])
-    U.lemma("L1_extend_smallest", [("box3i", "a"), ("vec3i", "x"), ("vec3i", "p"), ("box3i", "c")], """
-  box3i old = a;
-  _Bool p_in_old = box3i_contains(&old, &p);
-  box3i_extend(&a, &x);
-  ASSERT(extend_contains_argument, box3i_contains(&a, &x));
-  ASSERT(extend_contains_old_points, !p_in_old || box3i_contains(&a, &p));
-  /* smallest: any box c that contains x and (if old is non-empty) old's corners contains the new corners */
-  _Bool old_empty = box3i_empty(&old);
-  if (box3i_contains(&c, &x) && (old_empty || (box3i_contains(&c, &old.lower) && box3i_contains(&c, &old.upper)))) {
-    ASSERT(extend_is_smallest, old_empty ? 1 : (box3i_contains(&c, &a.lower) && box3i_contains(&c, &a.upper)));
-  }
-  box3i d; box3i_default(&d);
-  box3i_extend(&d, &x);
-  ASSERT(default_box_is_identity, d.lower.x == x.x && d.lower.y == x.y && d.lower.z == x.z && d.upper.x == x.x && d.upper.y == x.y && d.upper.z == x.z);
-""", uses=["box3i_extend", "box3i_contains", "box3i_empty", "box3i_default"])
-    U.lemma("L3_empty_disjoint_touching", [("box3i", "a"), ("box3i", "b")], """
-  _Bool ea = box3i_empty(&a), eb = box3i_empty(&b);
-  box3i i = box3i_intersectionOf(&a, &b);
-  _Bool ei = box3i_empty(&i);
-  _Bool dj = box3i_disjoint(&a, &b);
-  _Bool to = box3i_touchingOrOverlapping(&a, &b);
-  if (!ea && !eb) {
-    ASSERT(intersection_empty_iff_disjoint, ei == dj);
-    ASSERT(disjoint_iff_not_touching, dj == !to);
-  } else {
-    ASSERT(intersection_with_empty_is_empty, ei);
-    ASSERT(disjoint_with_empty_operand, dj);
-    ASSERT(not_touching_with_empty_operand, !to);
-  }
-""", uses=["box3i_empty", "box3i_intersectionOf", "box3i_disjoint", "box3i_touchingOrOverlapping"])
-    U.lemma("L4_clamp_contained", [("box3i", "a"), ("vec3i", "t")], """
-  if (!box3i_empty(&a)) {
-    vec3i c = box3i_clamp(&a, &t);
-    ASSERT(clamp_result_contained, box3i_contains(&a, &c));
-    if (box3i_contains(&a, &t)) ASSERT(clamp_identity_inside, c.x == t.x && c.y == t.y && c.z == t.z);
-  }
-""", uses=["box3i_empty", "box3i_clamp", "box3i_contains"])
+    tier = os.environ.get("VERIF_TIER_EFFECTIVE", "quick")
+    boxes = BOXES_QUICK + (BOXES_MORE if tier == "thorough" else [])
+    G = vecgen.Gen("c05_box")
+    for (tag, t, s) in boxes:
+        gen_box(G, tag, t, s)
+    # real-mode functions
+    G.lines.append("box3f box3f_xfmBounds(const AffineSpace3f &m, const box3f &b) { return xfmBounds(m, b); }")
+    G.lines.append("vec3f affine3f_xfmPoint(const AffineSpace3f &m, const vec3f &p) { return xfmPoint(m, p); }")
+    G.lines.append("float rcp__f32(float x) { return rcp(x); }")
+    G.lines.append("range1f box3f_intersectRayBox(const vec3f &org, const vec3f &dir, const box3f &box, const range1f &tRange) { return intersectRayBox(org, dir, box, tRange); }")
+    for (tag, t, s) in boxes:
+        if is_f(t) and s is not None:
+            G.lines.append("%s %s_center(const %s &b) { return center(b); }" % (vecgen.vt(t, s), tag, btype(t, s)))
+        if s in ("3", "3a"):
+            G.lines.append("%s %s_area(const %s &b) { return area(b); }" % (CXXT[t], tag, btype(t, s)))
+            G.lines.append("%s %s_volume(const %s &b) { return volume(b); }" % (CXXT[t], tag, btype(t, s)))
+        if s == "2":
+            G.lines.append("%s %s_area(const %s &b) { return area(b); }" % (CXXT[t], tag, btype(t, s)))
+    U = Unit("c05_box", "build/units/c05_box.cpp", gen=lambda p: G.write(p, ["rkcommon/math/box.h", "rkcommon/math/AffineSpace.h"]),
+             opts=dict(uf_arith=True, opaque=["rcp__f32"]))
+    G.apply(U)
+    for (tag, t, s) in boxes:
+        lemmas(U, tag, t, s)
+    math_part(U, boxes)
     return [U]
+
+
+def math_part(U, boxes):
+    A = z3.And
+    for (tag, t, s) in boxes:
+        cs = comps(s)
+        if is_f(t) and s is not None:
+            U.mfn(tag + "_center", "real", {"center_is_midpoint": lambda P, RET, Q, cs=cs: [2 * getattr(RET, c) == getattr(P[0].lower, c) + getattr(P[0].upper, c) for c in cs]})
+        if s in ("3", "3a") and is_f(t):
+            sz = lambda b, c: getattr(b.upper, c) - getattr(b.lower, c)
+            U.mfn(tag + "_area", "real", {"area_is_surface_area": lambda P, RET, Q: RET == 2 * (sz(P[0], "x") * sz(P[0], "y") + sz(P[0], "x") * sz(P[0], "z") + sz(P[0], "y") * sz(P[0], "z"))})
+            U.mfn(tag + "_volume", "real", {"volume_is_product_of_extents": lambda P, RET, Q: RET == sz(P[0], "x") * sz(P[0], "y") * sz(P[0], "z")})
+        if s == "2":
+            sz = lambda b, c: getattr(b.upper, c) - getattr(b.lower, c)
+            U.mfn(tag + "_area", "real" if is_f(t) else "int", {"area_is_product_of_extents": lambda P, RET, Q: RET == sz(P[0], "x") * sz(P[0], "y")})
+        if s == "3" and not is_f(t):
+            sz = lambda b, c: getattr(b.upper, c) - getattr(b.lower, c)
+            U.mfn(tag + "_volume", "int", {"volume_is_product_of_extents": lambda P, RET, Q: RET == sz(P[0], "x") * sz(P[0], "y") * sz(P[0], "z")})
+
+    def xfm_lemma(ctx):
+        m = ctx.new("affine3f", "m")
+        b = ctx.new("box3f", "b")
+        p = ctx.new("vec3f", "p")
+        hyp = [getattr(b.lower, c) <= getattr(p, c) for c in "xyz"] + [getattr(p, c) <= getattr(b.upper, c) for c in "xyz"]
+        B = ctx.call("box3f_xfmBounds", m, b)
+        q = ctx.call("affine3f_xfmPoint", m, p)
+        goals = {}
+        for c in "xyz":
+            goals["xfmBounds_contains_image_of_every_point_" + c] = A(getattr(B.lower, c) <= getattr(q, c), getattr(q, c) <= getattr(B.upper, c))
+        # definition of xfmPoint (full affine map)
+        for c in "xyz":
+            goals["xfmPoint_is_affine_map_" + c] = getattr(q, c) == getattr(m.l.vx, c) * p.x + getattr(m.l.vy, c) * p.y + getattr(m.l.vz, c) * p.z + getattr(m.p, c)
+        return hyp, goals
+    U.mlemma("xfmBounds_contains_image", "real", xfm_lemma, timeout=120)
+
+    def ray_lemma(ctx):
+        org = ctx.new("vec3f", "org"); d = ctx.new("vec3f", "dir"); box = ctx.new("box3f", "box"); tr = ctx.new("box1f", "tRange")
+        t = ctx.scalar("t")
+        FLT_MIN = z3.RealVal("1.17549435e-38")
+        hyp = []
+        for c in "xyz":
+            dc = getattr(d, c)
+            hyp.append(z3.Or(dc >= FLT_MIN, dc <= -FLT_MIN))     # rcp_safe(dir) is the reciprocal
+            hyp.append(getattr(box.lower, c) <= getattr(box.upper, c))  # non-empty box
+        R = ctx.call("box3f_intersectRayBox", org, d, box, tr)
+        inside = A(*[A(getattr(box.lower, c) <= getattr(org, c) + t * getattr(d, c), getattr(org, c) + t * getattr(d, c) <= getattr(box.upper, c)) for c in "xyz"])
+        goal = (A(R.lower <= t, t <= R.upper)) == A(tr.lower <= t, t <= tr.upper, inside)
+        return hyp, {"ray_interval_is_exactly_the_parameters_inside_the_box": goal}
+    U.mlemma("intersectRayBox_exact", "real", ray_lemma, timeout=200, models={"rcp__f32": lambda ev, st, x: ev.arith("/", ev.num(1), x)})
+
 
 META = dict(
     level="proof",
-    level_text="Every range_t/box_t function listed is extracted from /repo on each run and its contract (written from the property statement: closed-set membership, min/max lattice operations, emptiness) is enforced by CBMC for all 2^N operand values; the set-level clauses (intersection contains exactly the common points; extend is the smallest enclosing box with the empty box as identity; intersection-empty <=> disjoint <=> not touching; clamp lands inside) are lemmas proved from the callee contracts for a symbolic point and symbolic boxes, so faces, edges, corners and empty operands are all covered. Bit-precise, no bound.",
-    level_note="Trusted: clang AST + cxx2c extractor + prelude models of std::min/max; CBMC. Integer instantiations are exact; float instantiations assume no NaN; 'within rounding' clauses (xfmBounds, intersectRayBox, center/area/volume over floats) are decided over the reals by z3 (machine arithmetic treated as mathematical) or listed unverified.",
-    assumptions=["no NaN in float boxes/points", "signed element arithmetic in size() does not overflow (precondition)"],
-    unverified=["fromString", "operator<< streaming of ranges"],
+    level_text="Every range_t/box_t function listed is extracted from /repo on each run and its contract (written from the property statement: closed-set membership, min/max lattice operations, emptiness) is enforced by CBMC for all operand values (int32 exactly; float with a no-NaN precondition, comparisons are bit-precise and arithmetic is uninterpreted); the set-level clauses (intersection contains exactly the common points; extend is the smallest enclosing box with the empty box as identity; intersection-empty <=> disjoint <=> not touching incl. empty operands; clamp lands inside) are lemmas proved from the callee contracts for a symbolic point and symbolic boxes, so faces, edges, corners and empty operands are all covered. center/area/volume, xfmBounds (image of every point is inside) and intersectRayBox (exact parameter interval) are decided over the reals by z3 on VCs generated from the same extracted code.",
+    level_note="Trusted: clang AST + cxx2c extractor + prelude models of std::min/max; CBMC; z3. Float instantiations assume no NaN; real-mode obligations treat machine arithmetic as mathematical, so 'within rounding' is not quantified. intersectRayBox assumes |dir.c| >= FLT_MIN (rcp_safe is then the reciprocal) and a non-empty box.",
+    assumptions=["no NaN in float boxes/points", "real-mode lemmas: float arithmetic treated as real arithmetic (rounding not modelled)", "intersectRayBox: |dir.c| >= FLT_MIN, box non-empty, rcp(x) modelled as 1/x"],
+    unverified=["fromString", "operator<< streaming of ranges", "rounding magnitudes", "axis-parallel rays through rcp_safe's clamping", "center/area/volume of integer boxes (float round trip)"],
 )
